@@ -343,9 +343,35 @@ pub fn t_boxed(a: u32, log: &Log) -> Pin<Box<dyn Future<Output = u32>>> {
     })
 }
 
+pub fn p_single_prop(a: u32, log: &Log) -> u32 {
+    log.path(fastrace::func_path!());
+    log.push(format!("single {a}"));
+    a + 2
+}
+#[trace(short_name = true, properties = { "json": "{{\"k\": 1}}" })]
+pub fn t_single_prop(a: u32, log: &Log) -> u32 {
+    log.path(fastrace::func_path!());
+    log.push(format!("single {a}"));
+    a + 2
+}
+
+pub async fn p_single_fmt(a: u32, log: &Log) -> u32 {
+    log.path(fastrace::func_path!());
+    YieldN(a % 2).await;
+    log.push(format!("single fmt {a}"));
+    a + 3
+}
+#[trace(short_name = true, properties = { "only": "<{a}>}}" })]
+pub async fn t_single_fmt(a: u32, log: &Log) -> u32 {
+    log.path(fastrace::func_path!());
+    YieldN(a % 2).await;
+    log.push(format!("single fmt {a}"));
+    a + 3
+}
+
 // ---------------------------------------------------------------------------------------------
 
-pub const NTWINS: u8 = 21;
+pub const NTWINS: u8 = 23;
 
 #[derive(Clone, Debug, PartialEq, serde::Serialize)]
 pub struct Outcome {
@@ -449,7 +475,9 @@ pub fn run(f: u8, arg: u32, traced: bool) -> Outcome {
         17 => asyn!(p_async_panics(a, &log), t_async_panics(a, &log)),
         18 => asyn!(foo.p_am(a, &log), foo.t_am(a, &log)),
         19 => asyn!(p_async_nested(a, &log), t_async_nested(a, &log)),
-        _ => asyn!(p_boxed(a, &log), t_boxed(a, &log)),
+        20 => asyn!(p_boxed(a, &log), t_boxed(a, &log)),
+        21 => sync!(p_single_prop(a, &log), t_single_prop(a, &log)),
+        _ => asyn!(p_single_fmt(a, &log), t_single_fmt(a, &log)),
     }
 }
 
@@ -533,6 +561,8 @@ pub fn expected(f: u8, arg: u32) -> ExpSpan {
         17 => leaf(NameRule::BodyPath, vec![], true),
         18 => leaf(NameRule::Fixed("am"), vec![kv("a", format!("{a}"))], true),
         20 => leaf(NameRule::Fixed("boxed"), vec![], true),
+        21 => leaf(NameRule::Fixed("t_single_prop"), vec![kv("json", "{\"k\": 1}".into())], false),
+        22 => leaf(NameRule::Fixed("t_single_fmt"), vec![kv("only", format!("<{a}>}}"))], true),
         _ => ExpSpan {
             children: vec![
                 leaf(NameRule::Fixed("t_sync_short"), vec![], false),
@@ -545,5 +575,5 @@ pub fn expected(f: u8, arg: u32) -> ExpSpan {
 }
 
 pub fn is_async(f: u8) -> bool {
-    f >= 12
+    (12..=20).contains(&f) || f == 22
 }
